@@ -138,7 +138,10 @@ def corner_sketches(rng):
               lambda: cm.CountMinLog16(2, 2, 2**63, 65533), lambda: hl(7, 2**64 - 1), lambda: hl(16, 0), lambda: hl(7, 2**63),
               lambda: hl(9, 2**63 + 12345), lambda: hl(8, 2**64 - 4097),
               lambda: hh(1), lambda: hh(1, 1, 1), lambda: hh(1, 4, 16), lambda: hh(2, 1, 255), lambda: hh(3, 2, 4, 0.999),
-              lambda: hh(3, 2, 4, 1e-9)]
+              lambda: hh(3, 2, 4, 1e-9),
+              # phi next to, but not equal to, the default 1/width (what a user types for the reciprocal)
+              lambda: hh(7, 2, 4, 0.142857), lambda: hh(3, 1, 4, 0.3333333), lambda: hh(4, 2, 4, 0.25 * (1 + 2.0 ** -40)),
+              lambda: hh(10, 1, 8, 0.1 + 2.0 ** -50), lambda: hh(8, 2, 4, float(np.nextafter(0.125, 1.0)))]
     zoo = []
     for mk in makers:
         try:
